@@ -48,8 +48,10 @@ def check(run):
                 "(b),(c) one evaluation per behaviour replayed on the real provisioner / lifecycle / hash / nodeclaim-disruption "
                 "controllers (TLC simulations of Drift.tla + systematic sweeps creating one NodeClaim per provider launch option), "
                 "non-trivial when the real trace contains a drift reconcile of a launched NodeClaim (a judged verdict)")
-    r = _closed_model(run)
-    atoms = _atoms(r.stdout)
+    if os.environ.get("VERIF_C15_SKIP_MODEL"):    # development shortcut for code-mutation runs; never used by the registered commands
+        run.notes.append("closed model skipped (VERIF_C15_SKIP_MODEL)")
+    else:
+        _closed_model(run)
 
     # ---- (a) hash axioms on the real Hash()
     out = json.loads(run.drv("drift-hash", ["-out", os.path.join(run.work, "traces-hash"), "-shuffles", 20 if run.tier == "quick" else 200]))
@@ -73,7 +75,11 @@ def check(run):
     run.extra_cov["hash_paths"] = out["paths"]
 
     # ---- (b),(c) behaviours
-    hs = run.generate("Drift", "Drift_Gen.cfg", workers=1, simulate="num=%d" % NSIM[run.tier], depth=24, timeout=1500)
+    g = run.tlc("Drift", "Drift_Gen.cfg", workers=1, simulate="num=%d" % NSIM[run.tier], depth=24, timeout=1500, collect_beh=True)
+    if g.violated or g.error:
+        raise vlib.InfraError("behaviour generation Drift/Drift_Gen.cfg failed: %s" % (g.violated or g.error))
+    atoms = _atoms(g.stdout)
+    hs = g.printed
     if not hs:
         raise vlib.InfraError("TLC generated no Drift behaviours")
     seen, sims = set(), []
